@@ -246,4 +246,7 @@ def step (s : S) (toks : List String) (impl : String) : S × String × String :=
 def stream : Stream := { name := "C10.ring", σ := S, init := {}, step := step }
 end RingS
 
+/-- all C10 streams (picked up by tools/mkdriver.py) -/
+def streams : List Stream := [StackS.stream, MlinkS.stream, MlinkS.qstream, RingS.stream]
+
 end MdsVerif.Drv.C10
